@@ -11,6 +11,7 @@ CASES = [
     ("C03", "TraceProps.tla", r'("e":"RReturn".*)"kvs":\[\[[^\]]*\]=>\1"kvs":[[1,1,"zz"]', "first key-value of a read replaced"),
     ("C04", "TraceProps.tla", r'("e":"WrapRun".*)"listed_last":true=>\1"listed_last":false', "the last write missing from the list after the ring wrapped"),
     ("C05", "TraceProps.tla", r'("e":"Recv","evs":\[\["[A-Z]+",\d+,)(\d+)=>\g<1>1', "a delivered event's revision"),
+    ("C05", "TraceWatchMux.tla", r'"e":"MEvents","hdr":\d+=>"e":"MEvents","hdr":99', "the header revision of a response on the etcd watch stream"),
     ("C06", "TraceProps.tla", r'("e":"Recv","evs":\[\["[A-Z]+",\d+,)(\d+)=>\g<1>1', "a delivered event's revision"),
     ("C07", "TraceProps.tla", r'("e":"RReturn".*)"kvs":\[\[[^\]]*\]=>\1"kvs":[[1,1,"zz"]', "first key-value of a read after a compaction"),
     ("C08", "TraceProps.tla", r'"e":"CReturn","err":"","hdr":\d+=>"e":"CReturn","err":"","hdr":999', "the revision a compaction was accepted at"),
